@@ -672,6 +672,7 @@ fn fmt_effects(code: i64, p: &[i64], m: u64, mut d: Vec<u64>) -> Out {
 pub fn run_history(ints: &[i64]) -> Vec<Out> {
     let _ = take_effects();
     let _ = take_ledger();
+    let _ = crate::joins::take_amounts();
     FAULT.with(|f| f.set(0));
     let mut ex = Exec::new();
     let mut tr = Vec::new();
@@ -728,13 +729,27 @@ pub fn run_history(ints: &[i64]) -> Vec<Out> {
             break;
         }
     }
-    // leaving the history: whatever is still in the world is destroyed now, unobserved
-    drop(ex);
+    // leaving the history: whatever is still in the world is destroyed now, unobserved - for every other history
+    // (by a checksum of its numbers) while a panic raised by the caller unwinds through the frame that owns the world,
+    // which must destroy exactly the same values
+    if ints.iter().fold(0i64, |a, &b| a.wrapping_add(b)) & 1 == 1 {
+        struct CallerPanic;
+        let _ = catch_unwind(AssertUnwindSafe(move || {
+            let _owner = ex;
+            std::panic::panic_any(CallerPanic);
+        }));
+    } else {
+        drop(ex);
+    }
     let (_, d) = take_effects();
     // ledger entry (C08): [98, exposed, nC, C.., nR, R.., nD, D..] with D = what the teardown destroyed
     let mut l = take_ledger();
     l.push(d.len() as i64);
     l.extend(d.iter().map(|&u| u as i64));
+    // change-set amounts made / destroyed over the whole history (the slots died with `ex`)
+    let (made, gone) = crate::joins::take_amounts();
+    l.push(made);
+    l.push(gone);
     tr.push(l);
     tr
 }
